@@ -1,6 +1,7 @@
 import Mieru.Proofs.Close
 import Mieru.Proofs.CloseAccept
 import Mieru.Proofs.StreamPrefix
+import Mieru.Proofs.CloseWriter
 import Mieru.Gen.Facts
 /-!
 # C03 — graceful close never turns a partial transfer into a clean end-of-stream
@@ -234,16 +235,17 @@ theorem accepted_no_partial_eof_inside_assumptions (es : List Ev) (c : Acc)
 /-! ## Stream transport -/
 
 open Mieru.StreamWire Mieru.CloseStream in
-/-- On the stream transport the close request is the last thing the receiving underlay parses for
-    the session. For any AEAD / metadata codec that round-trip, any well-formed segment sequence on
-    the connection (other sessions interleaved) in which this session's items are the fragments of
-    `d` followed by its close request, and ANY prefix of the byte stream (any moment, any chunking):
-    the receive queue is a prefix of the fragments, the session is closed only if the queue holds
-    them all, and a `Read` that reports EOF has handed out all of `d`. -/
+/-- Receiving side. For any AEAD / metadata codec that round-trip, any well-formed segment sequence
+    on the connection (other sessions interleaved) in which this session's items are `WireOk` for the
+    fragments of `d` — a prefix of the fragments, or ALL of them followed by a close request followed
+    by anything (a forced duplicate, a close response, a segment that was in flight) — and ANY prefix
+    of the byte stream (any moment, any chunking): the receive queue is a prefix of the fragments, the
+    session is closed only if the queue holds them all, and a `Read` that reports EOF has handed out
+    all of `d`. (Round 1 stated this for the exact wire `fragments ++ [close request]` only.) -/
 theorem tcp_close_after_all_data (A : Aead) (M : MetaCodec) (fuel : Nat) (hfuel : 0 < fuel)
     (segs : List Seg) (hw : ∀ s ∈ segs, s.wf M) (c : Nat)
     (cls : Md → Nat × (Bytes → Item)) (sid : Nat) (frags : List Bytes)
-    (hsess : sessionItems cls sid (segs.map (fun s => (s.md, s.payload))) = frags.map Item.data ++ [Item.closeReq])
+    (hsess : WireOk frags (sessionItems cls sid (segs.map (fun s => (s.md, s.payload)))))
     (k pos : Nat) :
     let rx := feed A M fuel ⟨c, [], [], false⟩ ((encodeAll A M c segs).take k)
     let sr := run SRx.init (sessionItems cls sid rx.out)
@@ -254,9 +256,9 @@ theorem tcp_close_after_all_data (A : Aead) (M : MetaCodec) (fuel : Nat) (hfuel 
   obtain ⟨ex, hex⟩ := feed_take_prefix A M fuel ⟨c, [], [], false⟩ (encodeAll A M c segs) k
   rw [hfull] at hex
   simp only [List.nil_append] at hex
-  have hitems : sessionItems cls sid rx.out ++ sessionItems cls sid ex = frags.map Item.data ++ [Item.closeReq] := by
-    rw [← sessionItems_append, hex, hsess]
-  obtain ⟨hpre, hclosed⟩ := run_prefix frags _ _ hitems
+  have hitems : WireOk frags (sessionItems cls sid rx.out ++ sessionItems cls sid ex) := by
+    rw [← sessionItems_append, hex]; exact hsess
+  obtain ⟨hpre, hclosed⟩ := run_prefix_ok frags _ _ hitems
   refine ⟨hpre, hclosed, ?_⟩
   intro hr
   unfold readOnce at hr
@@ -274,6 +276,125 @@ theorem tcp_close_after_all_data (A : Aead) (M : MetaCodec) (fuel : Nat) (hfuel 
       rw [List.take_of_length_le hlen, hq]
       exact ⟨rfl, rfl⟩
     · simp at hr
+
+open Mieru.CloseStream in
+/-- Writing side (`Model/CloseWriter`: `writeChunk`, `runOutputOnceStream`, `closeWithError` with its
+    bounded wait and its direct write, `oLock`, the queue's capacity). In every reachable state —
+    under `wAssumed`: the output-loop goroutine is not starved for the whole bounded wait, writes to
+    the underlay do not fail, and (a regenerated fact about the code, `close_lock_scope`) `oLock` is held
+    across the whole drain — what the session has put on the wire is `WireOk`: a prefix of the
+    fragments `Write` accepted, or all of them followed by the close request(s). `Insert` can never
+    refuse the close request (`writeChunk` reserves its slot), and once `Close` has returned the wire
+    holds every fragment followed by at least one close request. -/
+theorem tcp_writer_wire_order (cap : Nat) (hcap : 0 < cap) {s : WSt} (h : WReach wAssumed cap s) :
+    WireOk s.frags s.wire ∧ (s.ph = Phase.idle → s.queue.length < s.cap) := by
+  have inv := wreach_winv hcap h
+  exact ⟨winv_wireOk inv, inv.capI⟩
+
+open Mieru.CloseStream in
+/-- … and when `Close()` has returned, every fragment is on the wire in front of a close request, and
+    nothing is left in the queue or in flight. -/
+theorem tcp_writer_close_returns_after_all_data (cap : Nat) (hcap : 0 < cap) {s : WSt}
+    (h : WReach wAssumed cap s) (hd : s.ph = Phase.done) :
+    ∃ m, s.wire = s.frags.map Item.data ++ List.replicate (m + 1) Item.closeReq ∧ s.queue = [] ∧ s.inflight = none := by
+  have inv := wreach_winv hcap h
+  have hsh := inv.shape
+  simp only [Shape, hd] at hsh
+  obtain ⟨hi, hq, m, hw⟩ := hsh
+  exact ⟨m, hw, hq, hi⟩
+
+open Mieru.StreamWire Mieru.CloseStream in
+/-- The property on the stream transport, end to end — writer model, wire, byte stream, receiving
+    underlay, session input, `Read`: take ANY reachable state of the writer (any interleaving of
+    `Write`s, the output loop, `Close`, the bounded wait) under `wAssumed`; let the connection carry any
+    well-formed segment sequence whose items for this session are what the writer has written so far
+    (other sessions interleaved), and let ANY prefix of its bytes have arrived in ANY chunking. Then a
+    `Read` that reports EOF has handed out every fragment `Write` accepted — all of `d`. -/
+theorem tcp_close_end_to_end (A : Aead) (M : MetaCodec) (fuel : Nat) (hfuel : 0 < fuel)
+    (cap : Nat) (hcap : 0 < cap) (ws : WSt) (hreach : WReach wAssumed cap ws)
+    (segs : List Seg) (hw : ∀ s ∈ segs, s.wf M) (c : Nat)
+    (cls : Md → Nat × (Bytes → Item)) (sid : Nat)
+    (hsess : sessionItems cls sid (segs.map (fun s => (s.md, s.payload))) = ws.wire)
+    (k pos : Nat) :
+    let rx := feed A M fuel ⟨c, [], [], false⟩ ((encodeAll A M c segs).take k)
+    let sr := run SRx.init (sessionItems cls sid rx.out)
+    (∃ more, sr.queue ++ more = ws.frags) ∧ (sr.closed = true → sr.queue = ws.frags) ∧
+    (readOnce sr pos = RdEv.eof → (sr.queue.take pos).flatten = ws.frags.flatten) := by
+  have hok : WireOk ws.frags (sessionItems cls sid (segs.map (fun s => (s.md, s.payload)))) := by
+    rw [hsess]; exact winv_wireOk (wreach_winv hcap hreach)
+  have := tcp_close_after_all_data A M fuel hfuel segs hw c cls sid ws.frags hok k pos
+  exact ⟨this.1, this.2.1, fun hr => (this.2.2 hr).2⟩
+
+open Mieru.CloseStream in
+/-- Without `sched` the statement is false in the model of the code as it is: if the output loop does
+    not get to run for the whole bounded wait (1000 × 1 ms) while the fragment and the close request
+    sit in `sendQueue`, `closeWithError` takes the free `oLock`, writes the close request out directly
+    and discards the queue: the wire carries the close request and no data, the peer's session is
+    closed with an empty queue and `Read` reports EOF at once. NOT reproduced on the real endpoints:
+    it needs a runnable goroutine to be starved for a full second (no blocking operation lies between
+    the wake-up of the output loop and `oLock.Lock()`), so this is the model's record of what the
+    theorem assumes, not a finding. -/
+theorem tcp_close_wait_expiry_counterexample :
+    ∃ s, WReach wAsIs 4096 s ∧ s.ph = Phase.done ∧ s.frags = [[1]] ∧ s.wire = [Item.closeReq] ∧
+      ¬ WireOk s.frags s.wire ∧ readOnce (run SRx.init s.wire) 0 = RdEv.eof := by
+  let s1 : WSt := { winit 4096 with queue := [Item.data [1]], frags := [[1]] }
+  let s2 : WSt := { s1 with queue := [Item.data [1], Item.closeReq], ph := .waiting }
+  let s3 : WSt := { s2 with ph := .forcing }
+  let s4 : WSt := { s3 with ph := .discarding, wire := [Item.closeReq] }
+  let s5 : WSt := { s4 with queue := [], ph := .done }
+  have r1 : WReach wAsIs 4096 s1 := WReach.step WReach.init (WStep.write (winit 4096) [[1]] rfl rfl rfl (by decide))
+  have r2 : WReach wAsIs 4096 s2 := WReach.step r1 (WStep.closeQueued s1 rfl rfl (by decide))
+  have r3 : WReach wAsIs 4096 s3 := WReach.step r2 (WStep.waitExpire s2 rfl (by intro hf; simp [wAsIs] at hf))
+  have r4 : WReach wAsIs 4096 s4 := WReach.step r3 (WStep.forceOut s3 true rfl rfl (fun _ => rfl))
+  have r5 : WReach wAsIs 4096 s5 := WReach.step r4 (WStep.discard s4 rfl)
+  refine ⟨s5, r5, rfl, rfl, rfl, ?_, by decide⟩
+  rw [← wireOkB_iff]; decide
+
+open Mieru.CloseStream in
+/-- The lock scope is load-bearing. In the hypothetical code that holds `oLock` only while it takes a
+    segment out of `sendQueue` (`drainLocked = false`, everything else as assumed — in particular the
+    output loop is NOT idle: it is blocked inside a network write): the first fragment is in flight,
+    the second and the close request are queued, the wait expires, `closeWithError` gets the free lock,
+    writes the close request and discards the queue; the in-flight fragment follows. The peer reads
+    nothing and sees a clean EOF. (This is seeded change C03-3; `close_lock_scope` is the regenerated
+    fact that rules it out for the code as it is.) -/
+theorem tcp_lock_scope_counterexample :
+    ∃ s, WReach wNarrowLock 4096 s ∧ s.ph = Phase.done ∧ s.frags = [[1], [2]] ∧
+      s.wire = [Item.closeReq, Item.data [1]] ∧ ¬ WireOk s.frags s.wire ∧
+      readOnce (run SRx.init s.wire) 0 = RdEv.eof := by
+  let s1 : WSt := { winit 4096 with queue := [Item.data [1], Item.data [2]], frags := [[1], [2]] }
+  let s2 : WSt := { s1 with olock := true }
+  let s3 : WSt := { s2 with queue := [Item.data [2]], inflight := some (Item.data [1]) }
+  let s4 : WSt := { s3 with olock := false }
+  let s5 : WSt := { s4 with queue := [Item.data [2], Item.closeReq], ph := .waiting }
+  let s6 : WSt := { s5 with ph := .forcing }
+  let s7 : WSt := { s6 with ph := .discarding, wire := [Item.closeReq] }
+  let s8 : WSt := { s7 with queue := [], ph := .done }
+  let s9 : WSt := { s8 with inflight := none, wire := [Item.closeReq, Item.data [1]] }
+  have r1 : WReach wNarrowLock 4096 s1 :=
+    WReach.step WReach.init (WStep.write (winit 4096) [[1], [2]] rfl rfl rfl (by decide))
+  have r2 : WReach wNarrowLock 4096 s2 := WReach.step r1 (WStep.outLock s1 rfl rfl rfl)
+  have r3 : WReach wNarrowLock 4096 s3 := WReach.step r2 (WStep.outDequeue s2 _ _ rfl rfl rfl)
+  have r4 : WReach wNarrowLock 4096 s4 := WReach.step r3 (WStep.outUnlockEarly s3 rfl rfl)
+  have r5 : WReach wNarrowLock 4096 s5 := WReach.step r4 (WStep.closeQueued s4 rfl rfl (by decide))
+  have r6 : WReach wNarrowLock 4096 s6 :=
+    WReach.step r5 (WStep.waitExpire s5 rfl (fun _ => Or.inr (Or.inl (by decide))))
+  have r7 : WReach wNarrowLock 4096 s7 := WReach.step r6 (WStep.forceOut s6 true rfl rfl (fun _ => rfl))
+  have r8 : WReach wNarrowLock 4096 s8 := WReach.step r7 (WStep.discard s7 rfl)
+  have r9 : WReach wNarrowLock 4096 s9 :=
+    WReach.step r8 (WStep.outWrite s8 (Item.data [1]) rfl (by intro hf; simp [wNarrowLock] at hf))
+  refine ⟨s9, r9, rfl, rfl, rfl, ?_, by decide⟩
+  rw [← wireOkB_iff]; decide
+
+open Mieru.CloseStream in
+/-- Soundness of the writer-side correspondence: a history of application calls and wire emissions that
+    the executable acceptor accepts without having had to explain a close request as a forced write
+    that overtook queued data (`sched` still set) has a `WireOk` wire — so the driver's `wireOkB` bit
+    must be 1 whenever its `sched` bit is, and `tcp_close_after_all_data` applies to what the peer got. -/
+theorem writer_history_sound (es : List WEv) (c : WAcc) (h : wacceptAll {} es = some c) (hs : c.sched = true) :
+    WireOk c.frags c.wire ∧ wireOkB c.frags c.wire = true := by
+  have := wainv_wireOk (wacceptAll_wainv es wainv_init h) hs
+  exact ⟨this, (wireOkB_iff _ _).mpr this⟩
 
 /-- Structural tie (regenerated from session.go on every run): `closeWithError` is the one place that
     empties `sendQueue` and `sendBuf`; `inputClose` is called from `input` for close requests and
